@@ -123,6 +123,8 @@ func lexSpec(s string) ([]tok, error) {
 			}
 			if strings.HasPrefix(s[j:], "@pre") {
 				j += 4
+			} else if strings.HasPrefix(s[j:], "@in") {
+				j += 3
 			}
 			out = append(out, tok{"id", s[i:j]})
 			i = j
